@@ -2,10 +2,15 @@
 
 package server
 
-import "net/http"
+import (
+	"net"
+	"net/http"
+)
 
 // Verification hooks (build tag "verif"). With the tag off these are empty and inlined away.
 
 func verifProxy(http.Handler) {}
 
 func verifPoint(string, ...any) {}
+
+func verifListen(network, addr string) (net.Listener, error) { return net.Listen(network, addr) }
